@@ -105,6 +105,12 @@ class Case:
             claim = z3.BoolVal(claim)
         self.path.oblige("%s.%s" % (self.contract.name, label), claim, kind="post", info=info)
 
+    def lemma(self, label, claim):
+        """Prove `claim` as its own obligation (under the current path condition), then use it as a
+        hypothesis for the obligations that follow (proof hint; nothing is assumed unproved)."""
+        self.path.oblige("%s.lemma.%s" % (self.contract.name, label), to_bool(claim), kind="post", info={"lemma": True})
+        self.path.pc.append(to_bool(claim))
+
     def undecided(self, label, why):
         self.reached_ensures = True
         self.path.undecided("%s.%s" % (self.contract.name, label), why)
